@@ -69,7 +69,7 @@ def _labels(case):
     s = case["spec"]
     return ["schema=" + case["schema"], "depth=%d" % _depth(s), "has-columns" if _has(s, {"columns"}) else "no-columns",
             "has-union" if _has(s, {"union"}) else "no-union", "has-passthrough" if _has(s, {"pass"}) else "no-passthrough",
-            "predictor" if case["predictor"] else "no-predictor", "subclassed-containers" if case.get("subclass") else "plain-containers"]
+            "predictor" if case["predictor"] else "no-predictor", "subclassed-containers" if case.get("subclass") else "plain-containers", "columns-as-" + case.get("cols_kind", "list")]
 
 
 def _nontrivial(case):
@@ -79,7 +79,7 @@ def _nontrivial(case):
 
 # ------------------------------------------------------------------------------- enumerate / str
 def check_enumerate(case):
-    pipe = pipegen.build(case["spec"], bool(case.get("subclass")))
+    pipe = pipegen.build(case["spec"], bool(case.get("subclass")), case.get("cols_kind", "list"))
     facts = dict(schema=case["schema"])
     ref = list(pipegen.walk(pipe))
     got = list(_hp.enumerate_pipeline_models(pipe))
@@ -144,7 +144,7 @@ def _invoked(pipe, out=None):
 
 
 def check_debug(case):
-    pipe = pipegen.build(case["spec"], bool(case.get("subclass")))
+    pipe = pipegen.build(case["spec"], bool(case.get("subclass")), case.get("cols_kind", "list"))
     data, y = pipegen.make_data(case)
     facts = dict(schema=case["schema"], predictor=case["predictor"])
     pipe.fit(data, y)
@@ -255,7 +255,7 @@ def parse_dot(text):
 
 
 def check_dot(case):
-    pipe = pipegen.build(case["spec"], bool(case.get("subclass")))
+    pipe = pipegen.build(case["spec"], bool(case.get("subclass")), case.get("cols_kind", "list"))
     data, y = pipegen.make_data(case)
     schema = case["schema"]
     arg = list(case["names"]) if schema == "names" else data
@@ -390,7 +390,8 @@ def _has_remainder(spec):
 
 def _strategy(tier):
     # one case in four builds its containers from user subclasses of Pipeline / FeatureUnion / ColumnTransformer
-    return st.builds(lambda c, f: dict(c, subclass=f), pipegen.program(max_depth=3 if tier == "quick" else 4), st.sampled_from([False, False, False, True]))
+    return st.builds(lambda c, f, ck: dict(c, subclass=f, cols_kind=ck), pipegen.program(max_depth=3 if tier == "quick" else 4), st.sampled_from([False, False, False, True]),
+                     st.sampled_from(["list", "list", "tuple", "array"]))
 
 
 CLAUSES = [
